@@ -11,10 +11,13 @@ mod c08;
 mod c09;
 mod c10;
 mod c11;
+mod c12;
+mod validator;
 mod c13;
 mod ops;
 mod c16;
 mod c18;
+mod c19;
 mod c15;
 mod gen;
 mod pngbuild;
@@ -80,9 +83,11 @@ fn main() {
             "C09" => c09::replay(case),
             "C10" => c10::replay(case),
             "C11" => c11::replay(case),
+            "C12" => c12::replay(case),
             "C13" => c13::replay(case),
             "C16" => c16::replay(case),
             "C18" => c18::replay(case),
+            "C19" => c19::replay(case),
             _ => "unknown-property".to_string(),
         };
         println!("{}", r);
@@ -100,9 +105,11 @@ fn main() {
         "C09" => c09::run(&a),
         "C10" => c10::run(&a),
         "C11" => c11::run(&a),
+        "C12" => c12::run(&a),
         "C13" => c13::run(&a),
         "C16" => c16::run(&a),
         "C18" => c18::run(&a),
+        "C19" => c19::run(&a),
         _ => {
             eprintln!("unknown property {}", prop);
             std::process::exit(2);
